@@ -811,7 +811,14 @@ def check_caller_dicts(task):
             "get_style_show_kwarg+kw": lambda d: get_style(factory(), DS(), style=d, style_opacity=0.5),
             "defaults_update": lambda d: getp(DS(), f"display.style.{DEFAULT_FAMILY[fam]}").update(d),
         }
-        for dname, make in (("nested", lambda: nested(leaf, copy.deepcopy(c))), ("underscore", lambda: {us: copy.deepcopy(c)})):
+        forms_d = [("nested", lambda: nested(leaf, copy.deepcopy(c))), ("underscore", lambda: {us: copy.deepcopy(c)})]
+        # both notations in ONE dictionary: a nested entry for this leaf next to an underscore entry for a sibling below the same node
+        sib = next((l2 for l2 in leaves_of(fam) if l2 != leaf and "." in leaf and l2.split(".")[0] == leaf.split(".")[0]), None)
+        if sib is not None:
+            sv, _ = probe_values(lambda: factory().style, sib, want=1)
+            if sv:
+                forms_d.append(("mixed", lambda: {**nested(leaf, copy.deepcopy(c)), sib.replace(".", "_"): copy.deepcopy(sv[0][0])}))
+        for dname, make in forms_d:
             for fname, f in forms.items():
                 n += 1
                 d = make()
